@@ -653,7 +653,7 @@ def enc5(ctx, c):
     except NotConst as e:
         c.undecided("SpecialOperand.translate", "not-foldable", str(e)[:160], where)
     c.note("ENC-5: %d (mnemonic, operand) cases folded" % n)
-    init = repo.method("SpecialOperand", "__init__", inherited=False)
+    init = repo.method("SpecialOperand", "__init__")
     gate = any(isinstance(x, ast.If) and "is_special" in U(x.test) and isinstance(x.body[-1], ast.Raise) for x in ast.walk(init.node))
     c.shape(gate, "SpecialOperand.__init__", "only is_special instructions", "gate on is_special not recognised", repo.loc(init, init.node))
 
@@ -818,7 +818,7 @@ def enc7(ctx, c):
         c.finding("Operand.resolve_symbols:resolve", "no resolve call", "Operand.resolve_symbols never resolves its value against the symbol table", wr_)
     # the [address] form is followed by a 16-bit address: its value is parsed with the extended default
     if repo.has_cls("ExtendedIndexedOperand"):
-        ei = repo.method("ExtendedIndexedOperand", "__init__", inherited=False)
+        ei = repo.method("ExtendedIndexedOperand", "__init__")
         for n_ in ast.walk(ei.node):
             if isinstance(n_, ast.Assign) and U(n_.targets[0]) == "self.value" and isinstance(n_.value, ast.Call) and U(n_.value.func) == "Value.create_from_str":
                 kwd = {k.arg: try_fold_(k.value, ctx.env) for k in n_.value.keywords if k.arg}
@@ -865,7 +865,15 @@ def enc7(ctx, c):
             final = {}
             try:
                 fold_body(pre, envf, final=final)
-                folded[(ch, dme)] = (final.get("mode"), final.get(vparam))
+                # what the value classes are handed: the first argument and the mode keyword of the constructor calls in the cascade
+                from ..consteval import fold as _f7
+                vcalls = [x for x in ast.walk(cf.node) if isinstance(x, ast.Call) and U(x.func) in ("ExpressionValue", "NumericValue", "SymbolValue", "LeftRightValue") and x.args]
+                texts_ = {U(x.args[0]) for x in vcalls}
+                modes_ = {U(k.value) for x in vcalls for k in x.keywords if k.arg == "mode"}
+                if len(texts_) == 1 and len(modes_) == 1:
+                    folded[(ch, dme)] = (_f7(next(k.value for x in vcalls for k in x.keywords if k.arg == "mode"), final), _f7(vcalls[0].args[0], final))
+                else:
+                    folded[(ch, dme)] = (final.get("mode"), final.get(vparam))
             except (NotConst, Raised) as e:
                 folded = None
                 break
